@@ -7,6 +7,12 @@
 (*      rational stand-in gains Gain(0) = 0, Gain(1) = 1/2, Gain(2) = 3/4: *)
 (*      no overshoot, zero time = detected value, monotone convergence on  *)
 (*      constant input, a setter changes only subsequent frames.           *)
+(*      Clone: at any point of a history of up to CloneLen operations the  *)
+(*      detector may be cloned (once); every later operation picks one of  *)
+(*      the two instances.  The copy starts from the original's state      *)
+(*      (CloneSame), inherits its history -- so Monotone, Recurrence ...   *)
+(*      are demanded of the copy ACROSS the clone point -- and neither     *)
+(*      instance is changed by an operation on the other (Independent).    *)
 (*  (b) rectifiers: algebraic laws on boundary sets of all 14 formats      *)
 (*      (ASSUME RectLaws).                                                 *)
 (* Also writes the stimuli for the Rust harness (IOEnv.STIM_OUT).          *)
@@ -14,6 +20,7 @@
 EXTENDS Envelope, FiniteSets, TLC, Json, IOUtils, SequencesExt
 
 CONSTANTS MaxLen,       \* histories of up to MaxLen operations are explored
+          CloneLen,     \* ... of up to CloneLen operations when they contain a clone
           StimLen       \* stimuli: every history of exactly StimLen operations
 K == -2..2
 T == 0..2
@@ -24,60 +31,80 @@ InV(k) == SFromInt(32 * k)
 Det(kind, k) == DNorm(DFromS(Rect(kind, "i8", InV(k))))    \* detected value (an integer, as a dyadic)
 
 VARIABLES kind,         \* rectifier of this execution
-          s,            \* detector state [env, gA, gR], one channel
+          ds,           \* the detector instances (1, or 2 after the clone), each
+                        \*   [s: detector state [env, gA, gR], one channel;
+                        \*    dets, outs: detected values / outputs of the input operations it has seen --
+                        \*    a clone has seen what its original had seen]
           hist,         \* operations so far
-          dets, outs,   \* detected values / outputs of the input operations so far
-          pre           \* [env, nouts, g] before the last operation (g = gain it used, for inputs)
-vars == << kind, s, hist, dets, outs, pre >>
+          pre           \* the last operation: [i: instance it acted on, env / nouts: its envelope and number of outputs
+                        \*   before, g: the gain it used (inputs), others: the OTHER instances as they were before]
+vars == << kind, ds, hist, pre >>
 
-Ops == {[op |-> "in", k |-> k] : k \in K} \cup {[op |-> o, t |-> t] : o \in {"setA", "setR"}, t \in T}
 NormS(st) == [st EXCEPT !.env = [c \in DOMAIN st.env |-> DNorm(st.env[c])]]
+Others(i) == [j \in 1..Len(ds) |-> IF j = i THEN << >> ELSE ds[j]]
 
 Init == /\ kind \in Kinds
-        /\ \E a \in T, r \in T : s = EnvNew(1, GainMC(a), GainMC(r))
-        /\ hist = << >> /\ dets = << >> /\ outs = << >>
-        /\ pre = [env |-> DZero, nouts |-> 0, g |-> DZero]
-Guard == Len(hist) < MaxLen /\ UNCHANGED kind
-StepIn == Guard /\ \E k \in K :
-  LET d == Det(kind, k)
-      r == EnvNext(s, << d >>)
-  IN /\ s' = NormS(r.s) /\ hist' = Append(hist, [op |-> "in", k |-> k])
-     /\ dets' = Append(dets, d) /\ outs' = Append(outs, DNorm(r.out[1]))
-     /\ pre' = [env |-> s.env[1], nouts |-> Len(outs), g |-> EnvPick(s.env[1], d, s.gA, s.gR)]
-StepSetA == Guard /\ \E t \in T :
-  /\ s' = EnvSetAttack(s, GainMC(t)) /\ hist' = Append(hist, [op |-> "setA", t |-> t])
-  /\ UNCHANGED << dets, outs >> /\ pre' = [env |-> s.env[1], nouts |-> Len(outs), g |-> DZero]
-StepSetR == Guard /\ \E t \in T :
-  /\ s' = EnvSetRelease(s, GainMC(t)) /\ hist' = Append(hist, [op |-> "setR", t |-> t])
-  /\ UNCHANGED << dets, outs >> /\ pre' = [env |-> s.env[1], nouts |-> Len(outs), g |-> DZero]
-Next == StepIn \/ StepSetA \/ StepSetR
+        /\ \E a \in T, r \in T : ds = << [s |-> EnvNew(1, GainMC(a), GainMC(r)), dets |-> << >>, outs |-> << >>] >>
+        /\ hist = << >>
+        /\ pre = [i |-> 1, env |-> DZero, nouts |-> 0, g |-> DZero, others |-> << >>]
+Guard == Len(hist) < (IF Len(ds) > 1 THEN CloneLen ELSE MaxLen) /\ UNCHANGED kind
+Pre(i, g) == [i |-> i, env |-> ds[i].s.env[1], nouts |-> Len(ds[i].outs), g |-> g, others |-> Others(i)]
+StepIn == Guard /\ \E i \in 1..Len(ds), k \in K :
+  LET me == ds[i]
+      d == Det(kind, k)
+      r == EnvNext(me.s, << d >>)
+  IN /\ ds' = [ds EXCEPT ![i] = [s |-> NormS(r.s), dets |-> Append(me.dets, d), outs |-> Append(me.outs, DNorm(r.out[1]))]]
+     /\ hist' = Append(hist, [op |-> "in", i |-> i, k |-> k])
+     /\ pre' = Pre(i, EnvPick(me.s.env[1], d, me.s.gA, me.s.gR))
+StepSetA == Guard /\ \E i \in 1..Len(ds), t \in T :
+  /\ ds' = [ds EXCEPT ![i].s = EnvSetAttack(@, GainMC(t))] /\ hist' = Append(hist, [op |-> "setA", i |-> i, t |-> t])
+  /\ pre' = Pre(i, DZero)
+StepSetR == Guard /\ \E i \in 1..Len(ds), t \in T :
+  /\ ds' = [ds EXCEPT ![i].s = EnvSetRelease(@, GainMC(t))] /\ hist' = Append(hist, [op |-> "setR", i |-> i, t |-> t])
+  /\ pre' = Pre(i, DZero)
+\* Clone (Detector: Clone, DetectEnvelope: Clone): a second instance that has seen what the original has seen
+StepClone == /\ Len(ds) = 1 /\ Len(hist) < CloneLen /\ UNCHANGED kind
+             /\ ds' = Append(ds, [ds[1] EXCEPT !.s = EnvClone(@)])
+             /\ hist' = Append(hist, [op |-> "clone", i |-> 1, j |-> 2])
+             /\ pre' = Pre(1, DZero)
+Next == StepIn \/ StepSetA \/ StepSetR \/ StepClone
 Spec == Init /\ [][Next]_vars
 
-LastIsIn == Len(hist) > 0 /\ hist[Len(hist)].op = "in"
-LastD == dets[Len(dets)]
-LastOut == outs[Len(outs)]
+LastOp == IF Len(hist) > 0 THEN hist[Len(hist)].op ELSE "none"
+LastIsIn == LastOp = "in"
+Me == ds[pre.i]                        \* the instance of the last operation
+LastD == Me.dets[Len(Me.dets)]
+LastOut == Me.outs[Len(Me.outs)]
 ---------------------------------------------------------------------------
 (* invariants = clauses of C19 *)
 \* the output is the convex combination (1 - g) d + g prev -- written independently of EnvStep
 Recurrence == LastIsIn =>
   DEq(LastOut, DAdd(DMul(DSub(DFromInt(1), pre.g), LastD), DMul(pre.g, pre.env)))
 \* attack when the detected value exceeds the previous envelope, release otherwise
-GainRule == LastIsIn => pre.g = (IF DLt(pre.env, LastD) THEN s.gA ELSE s.gR)
+GainRule == LastIsIn => pre.g = (IF DLt(pre.env, LastD) THEN Me.s.gA ELSE Me.s.gR)
 \* hence it always lies between the previous envelope and the detected value
 Between == LastIsIn => DLe(DMin(pre.env, LastD), LastOut) /\ DLe(LastOut, DMax(pre.env, LastD))
 \* equals the detected value when the time is 0
 ZeroTime == LastIsIn /\ DIsZero(pre.g) => DEq(LastOut, LastD)
-\* constant input: the outputs approach it monotonically (same side, strictly closer unless already there)
+\* constant input: the outputs approach it monotonically (same side, strictly closer unless already there) --
+\* for every instance, a clone's sequence running across the point where it was cloned
 Monotone ==
+  \A j \in 1..Len(ds) : LET dets == ds[j].dets outs == ds[j].outs IN
   \A i \in 1..(Len(outs) - 1) :
     dets[i] = dets[i + 1] =>
       LET e1 == DSub(outs[i], dets[i]) e2 == DSub(outs[i + 1], dets[i]) IN
       /\ DSign(e2) = 0 \/ DSign(e2) = DSign(e1)
       /\ DLe(DAbs(e2), DAbs(e1)) /\ (DSign(e1) # 0 => DLt(DAbs(e2), DAbs(e1)))
 \* a setter changes no output already produced and not the envelope: only subsequent frames
-SetLater == Len(hist) > 0 /\ ~LastIsIn => s.env[1] = pre.env /\ Len(outs) = pre.nouts
+SetLater == LastOp \in {"setA", "setR"} => Me.s.env[1] = pre.env /\ Len(Me.outs) = pre.nouts
 \* rectified values have the rectifier's sign
 DetSign == LastIsIn => (kind = "neg" => DSign(LastD) <= 0) /\ (kind # "neg" => DSign(LastD) >= 0)
+\* a clone IS the original at that moment (envelope, gains, what it has seen): it answers every next input alike
+CloneSame == LastOp = "clone" =>
+  /\ Len(ds) = 2 /\ ds[2] = ds[1] /\ ds[1].s.env[1] = pre.env
+  /\ \A k \in K : EnvNext(ds[2].s, << Det(kind, k) >>).out = EnvNext(ds[1].s, << Det(kind, k) >>).out
+\* ... and independent of it afterwards: an operation changes no instance but its own
+Independent == \A j \in 1..Len(pre.others) : j # pre.i => ds[j] = pre.others[j]
 
 ---------------------------------------------------------------------------
 (* (b) rectifier laws on boundary sets of all 14 formats *)
@@ -125,42 +152,58 @@ RectStim ==
             IN << [ev |-> "reset", comp |-> "rect", cfg |-> [fmt |-> AllFmts[fi], ch |-> ch]] >>
                \o [j \in 1..(3 * Len(b)) |->
                      [ev |-> "rect", a |-> [kind |-> << "full", "pos", "neg" >>[((j - 1) % 3) + 1],
+                                            by |-> << "fn", "trait" >>[(((j - 1) \div 3) % 2) + 1],   \* free function / Rectifier impl
                                             x |-> fr(((j - 1) \div 3) + 1)]]]
             : ch \in 1..4 } : fi \in 1..14 }
 \* detector: every history of exactly StimLen operations from every initial gain pair; the remaining
-\* configuration (format, detection, channels, window, adaptor) is spread over them deterministically
+\* configuration (format, detection, channels, window, adaptor, constructor entry point, ring storage) is spread
+\* over them deterministically
+Ops == {[op |-> "in", k |-> k] : k \in K} \cup {[op |-> o, t |-> t] : o \in {"setA", "setR"}, t \in T}
 Tq(t) == 4 * t
 Rot(k, c) == ((k + 2 + c - 1) % 5) - 2
 Fr(k, ch) == [c \in 1..ch |-> [d |-> << Rot(k, c), 2 >>]]
-OpW(o) == IF o.op \in {"in", "z"} THEN o.k + 2 ELSE (IF o.op = "setA" THEN 5 ELSE 8) + o.t
-HW(h) == LET S[i \in 0..Len(h)] == IF i = 0 THEN 0 ELSE 11 * S[i - 1] + OpW(h[i]) IN S[Len(h)]
+IOf(o) == IF "i" \in DOMAIN o THEN o.i ELSE 0           \* the instance an operation acts on
+OpW(o) == 3 * IOf(o) + (CASE o.op \in {"in", "z"} -> o.k + 2 [] o.op = "setA" -> 5 + o.t [] o.op = "setR" -> 8 + o.t
+                          [] o.op = "clone" -> 11 [] OTHER -> 12)
+HW(h) == LET S[i \in 0..Len(h)] == IF i = 0 THEN 0 ELSE (11 * S[i - 1] + OpW(h[i])) % 100003 IN S[Len(h)]
 EFmts == << "f32", "f64", "i16" >>
 EDets == << "full", "pos", "neg", "rms" >>
+ECtors == << "named", "new", "rect", "from" >>
 \* one detector execution.  The configuration is spread by the hash w.  A zero time is handed over as IEEE
 \* negative zero (nza / nzr / nz = 1) in about half of its occurrences, spread by w as well: -0.0 = 0 is the
 \* time 0 to the model (gain 0) -- the exploration above needs no fourth time constant for it.
 \* sl >= 0: adaptor run over a source signal of sl frames; the operations "z" past its end carry the
 \* equilibrium frame (what a finite signal yields there); sl = -1: never read past the end.
+\* Operations: in / z (a frame), setA / setR, clone (instance j = clone of i), mv (the instance is moved in memory),
+\* flip (a bare detector is put on the adaptor, an adaptor is taken apart); the driver names the events after what
+\* the instance is at that moment (env_* / env_sig_*).  src = source signal of the adaptors ("gen" where they are cloned).
 ZFr(ch) == [c \in 1..ch |-> [d |-> << 0, 2 >>]]
-Exec(h, a0, r0, sl) ==
-  LET w   == HW(h) + 7 * a0 + 13 * r0
-      ch  == (w % 4) + 1
-      via == IF sl >= 0 \/ (w \div 4) % 3 = 0 THEN "signal" ELSE "direct"
-      det == EDets[((w \div 3) % 4) + 1]
+ExecS(h, a0, r0, sl, src) ==
+  LET w   == ((HW(h) + 7 * a0 + 13 * r0) * 7919) % 100003      \* mixed, then read as a mixed-radix number: the
+      ch  == (w % 4) + 1                                        \* fields below vary independently of each other
+      fmt == EFmts[((w \div 4) % 3) + 1]
+      det == EDets[((w \div 12) % 4) + 1]
+      via == IF sl >= 0 \/ (w \div 48) % 3 = 0 THEN "signal" ELSE "direct"
       evOf(o, i) ==
-        IF o.op \in {"in", "z"}
-          THEN [ev |-> IF via = "signal" THEN "env_sig_next" ELSE "env_next",
-                a |-> [x |-> IF o.op = "z" THEN ZFr(ch) ELSE Fr(o.k, ch)]]
-          ELSE [ev |-> IF via = "signal" THEN "env_sig_set" ELSE "env_set",
-                a |-> [which |-> IF o.op = "setA" THEN "attack" ELSE "release", tq |-> Tq(o.t),
-                       nz |-> IF o.t = 0 THEN (w + i) % 2 ELSE 0]]
+        CASE o.op \in {"in", "z"} ->
+               [ev |-> IF via = "signal" THEN "env_sig_next" ELSE "env_next",
+                a |-> [i |-> IOf(o), x |-> IF o.op = "z" THEN ZFr(ch) ELSE Fr(o.k, ch)]]
+          [] o.op \in {"setA", "setR"} ->
+               [ev |-> IF via = "signal" THEN "env_sig_set" ELSE "env_set",
+                a |-> [i |-> IOf(o), which |-> IF o.op = "setA" THEN "attack" ELSE "release", tq |-> Tq(o.t),
+                       nz |-> IF o.t = 0 THEN ((w \div 9216) + i) % 2 ELSE 0]]
+          [] o.op = "clone" -> [ev |-> "env_clone", a |-> [i |-> o.i, j |-> o.j]]
+          [] o.op = "mv"    -> [ev |-> "env_move", a |-> [i |-> o.i]]
+          [] o.op = "flip"  -> [ev |-> "env_flip", a |-> [i |-> o.i]]
   IN << [ev |-> "reset", comp |-> "env",
-         cfg |-> [fmt |-> EFmts[(w % 3) + 1], ch |-> ch, det |-> det,
-                  n |-> IF det = "rms" THEN 1 + (w % 2) ELSE 0,
+         cfg |-> [fmt |-> fmt, ch |-> ch, det |-> det,
+                  n |-> IF det = "rms" THEN 1 + ((w \div 1152) % 2) ELSE 0,
                   attack |-> Tq(a0), release |-> Tq(r0),
-                  nza |-> IF a0 = 0 THEN (w \div 5) % 2 ELSE 0, nzr |-> IF r0 = 0 THEN (w \div 7) % 2 ELSE 0,
-                  via |-> via, srclen |-> sl]] >>
+                  nza |-> IF a0 = 0 THEN (w \div 2304) % 2 ELSE 0, nzr |-> IF r0 = 0 THEN (w \div 4608) % 2 ELSE 0,
+                  via |-> via, srclen |-> sl, src |-> src,
+                  ctor |-> ECtors[((w \div 144) % 4) + 1], store |-> << "vec", "box" >>[((w \div 576) % 2) + 1]]] >>
      \o [i \in 1..Len(h) |-> evOf(h[i], i)]
+Exec(h, a0, r0, sl) == ExecS(h, a0, r0, sl, "iter")
 EnvStim == UNION { { Exec(h, a, r, -1) : h \in [1..StimLen -> Ops] } : a \in T, r \in T }
 \* "a setter affects only later frames" on the exact domain: frame, setter, frame for every combination
 SetHist(k1, o, t, k2) == << [op |-> "in", k |-> k1], [op |-> o, t |-> t], [op |-> "in", k |-> k2] >>
@@ -176,11 +219,33 @@ TailStim ==
           \cup { Exec(<< In(k1), In(k2), Z >>, a0, r0, 2) : k1 \in K \ {0}, k2 \in {-1, 2} }
           \cup { Exec(<< In(k), [op |-> o, t |-> t], Z, Z >>, a0, r0, 1) : k \in {-2, 1}, o \in {"setA", "setR"}, t \in T }
           : a0 \in T, r0 \in T }
-Stimuli == RectStim \cup EnvStim \cup SetStim \cup TailStim
+\* Clone at EVERY position of a short run (before the first frame, between the two, after them), from every initial
+\* gain pair; then BOTH copies are continued, with different inputs:
+\*   CloneA: alternating frames on the two instances, one of them moved in memory on the way;
+\*   CloneB: a setter on ONE instance (the other must keep its gains), the same frame on both, then one of them is
+\*           put on / taken off the adaptor and both go on with different frames.
+InI(i, k) == [op |-> "in", i |-> i, k |-> k]
+SetI(i, o, t) == [op |-> o, i |-> i, t |-> t]
+CloneAt(h, p) == SubSeq(h, 1, p) \o << [op |-> "clone", i |-> 0, j |-> 1] >> \o SubSeq(h, p + 1, Len(h))
+CloneA ==
+  UNION { { LET ka == IF (k1 + k2 + p) % 2 = 0 THEN 2 ELSE -2
+                kb == IF ka = 2 THEN -1 ELSE 1
+            IN ExecS(CloneAt(<< InI(0, k1), InI(0, k2) >>, p)
+                       \o << InI(1, ka), InI(0, kb), InI(1, kb), [op |-> "mv", i |-> (k1 + p) % 2], InI(0, ka), InI(1, ka) >>,
+                     a0, r0, -1, "gen")
+            : k1 \in K \ {0}, k2 \in {-1, 2}, p \in 0..2 } : a0 \in T, r0 \in T }
+CloneB ==
+  UNION { { LET ka == IF (k1 + p + t) % 2 = 0 THEN 2 ELSE -2 IN
+            ExecS(CloneAt(<< InI(0, k1), InI(0, 2) >>, p)
+                    \o << SetI(x, o, t), InI(0, ka), InI(1, ka), [op |-> "flip", i |-> 1 - x], InI(1, 0 - ka), InI(0, 1), InI(1, 1) >>,
+                  a0, r0, -1, "gen")
+            : k1 \in {-2, 1}, p \in 0..2, o \in {"setA", "setR"}, t \in {0, 2}, x \in {0, 1} } : a0 \in T, r0 \in T }
+CloneStim == CloneA \cup CloneB
+Stimuli == RectStim \cup EnvStim \cup SetStim \cup TailStim \cup CloneStim
 WriteStimuli ==
   IF "STIM_OUT" \in DOMAIN IOEnv
     THEN /\ ndJsonSerialize(IOEnv.STIM_OUT, SetToSeq(Stimuli))
-         /\ PrintT(<< "STIMULI", Cardinality(RectStim), Cardinality(EnvStim), Cardinality(SetStim), Cardinality(TailStim) >>)
+         /\ PrintT(<< "STIMULI", Cardinality(RectStim), Cardinality(EnvStim), Cardinality(SetStim), Cardinality(TailStim), Cardinality(CloneStim) >>)
     ELSE TRUE
 ASSUME WriteStimuli
 =============================================================================
